@@ -258,7 +258,7 @@ def srcOf : Clause → Src
   | .updLegacyStamped | .updBadStamp => .upd
   | .staleRead _ | .f7Stale | .staleCall | .hitAfterInvalidate => .cache
   | .closedMentioned | .ackTableWindow | .f19Registered | .ackedMissing | .refusedLeft | .foreignEntry => .tab
-  | .endMidFan | .endSkippedAck | .endF19 | .endSkipped | .endNoLost => .fin
+  | .endMixedRemove | .endMidFan | .endSkippedAck | .endF19 | .endSkipped | .endNoLost => .fin
 
 theorem lostClause_src {d : MSlot} {w : What} {s : Seen} {c : Clause} (h : d.lostClause w s = some c) : srcOf c = seenSrc s := by
   simp only [MSlot.lostClause] at h
@@ -430,7 +430,9 @@ theorem end_src {m : MState} {c : Clause} (h : endCheck m = some c) : srcOf c = 
         · simp only [Option.some.injEq] at hi; rw [← hi]; rfl
         · split at hi
           · simp only [Option.some.injEq] at hi; rw [← hi]; rfl
-          · split at hi <;> (simp only [Option.some.injEq] at hi; rw [← hi]; rfl)
+          · split at hi
+            · simp only [Option.some.injEq] at hi; rw [← hi]; rfl
+            · split at hi <;> (simp only [Option.some.injEq] at hi; rw [← hi]; rfl)
 
 /-! ### the source of a reported clause -/
 
